@@ -1,36 +1,24 @@
-"""Per-property configuration: which Coq file states it, which harness areas tie the model to
-/repo and search the implementation for a failing input, and the words used in MANIFEST.json.
-
-areas:    harness areas to run (each writes correspondence cases + direct failures)
-props:    coq/props/<props>.v holds the theorems of the property
-level:    MANIFEST level category
+"""Per-property configuration, one JSON file per property in tools/propcfg.d/Cxx.json:
+  title        property title
+  props        coq/props/<props>.v holds the theorems of the property
+  areas        harness areas to run (each writes correspondence cases + direct failures)
+  technique, level_text, level_note, design_ref      words for MANIFEST.json
+  modelled     Rust items the Coq model covers
+  exhaustive_quick / exhaustive_thorough             true when that tier enumerates a finite space completely
+  trusted_extra  extra trusted-base lines (e.g. stdlib axioms used, oracle inputs)
+  axioms_allowed names of standard-library axioms that may appear under Print Assumptions
+  rule         how cases are generated / what makes one non-trivial (for the evidence file)
 """
+import glob, json, os
 
 TRUSTED_COMMON = [
     "Coq 8.16.1 kernel (coqc, full .vo build, no -vos); vm_compute used for finite sweeps; no native_compute",
-    "axioms reported by Print Assumptions under every theorem of the property: none (Closed under the global context) unless listed in 'axioms'",
+    "axioms reported by Print Assumptions under every theorem of the property: none (Closed under the global context) unless listed in axioms_allowed",
     "extraction to OCaml with the directives of ExtrOcamlBasic only (bool, option, unit, list, prod, sumbool, sumor; andb/orb inlined); Z/positive/ascii/string stay extracted inductives; ocamlfind ocamlopt 4.13.1",
     "ocaml/driver.ml (text <-> tree conversion, string comparison) and the Rust harness generators/canonical printers (harness/src), built against /repo's working tree with --cfg endorpersand_lc3_ensemble_verif and overflow checks on",
     "tools/translate.py (regex translation of constants/tables from /repo/src into coq/gen)",
 ]
 
-PROPS = {
-    "C35": dict(
-        title="Bounded offsets accept exactly the representable values",
-        props="C35", areas=["offset"],
-        technique="Coq proof (arithmetic, all n in 1..16 and all 16-bit values) + exhaustive model/implementation correspondence",
-        level_text="Theorems C35_* prove for every width 1..16 and every 16-bit value that new/new_trunc of the model are the representability test and the sign/zero extension; the model is compared with Offset::<i16|u16,N>::new/new_trunc on every (N, value) pair (exhaustive in the thorough tier, every 7th value plus all boundaries in the quick tier), so the theorem transfers to the code on the whole domain.",
-        level_note="Trusted: Coq kernel, extraction (ExtrOcamlBasic), driver/harness glue. Modelled by hand: Rust's 16-bit shl/shr semantics (model/Bits.v); N=0 and N>16 are Panic in model and code (overflow checks on).",
-        design_ref="6/C35",
-        modelled=["src/ast.rs: OffsetBacking::truncate (i16,u16), Offset::new, Offset::new_trunc, Offset::get"],
-    ),
-    "C06": dict(
-        title="Instruction decoding is the exact inverse of encoding",
-        props="C06", areas=["instr"],
-        technique="Coq proof by complete finite sweep (all 65536 words, all valid instructions; vm_compute lifted to a bounded forall) + exhaustive model/implementation correspondence",
-        level_text="The domain is finite: theorems C06_* hold for all 65536 words and all ~40k representable instructions of the model (boolean check computed by the kernel, lifted with forall_range); classify (spec/IsaEncoding.v) is an independent ISA format table. decode and encode of the implementation are compared with the model on every word and every representable instruction in both tiers, so the theorems transfer to the code on the whole domain.",
-        level_note="Trusted: Coq kernel incl. vm_compute, extraction, driver/harness glue (harness enumerates instructions through the public constructors). Modelled by hand: join_bits/slice/interpret (model/Instr.v); opcode constants regenerated from src/ast/sim.rs.",
-        design_ref="6/C06", exhaustive_quick=True, exhaustive_thorough=True,
-        modelled=["src/ast/sim.rs: SimInstr::{opcode,encode,decode}, join_bits, DecodeUtils::{slice,assert_equals,interpret}, FromBits for Reg/IOffset/Offset<u16>"],
-    ),
-}
+PROPS = {}
+for _f in sorted(glob.glob(os.path.join(os.path.dirname(os.path.abspath(__file__)), "propcfg.d", "C*.json"))):
+    PROPS[os.path.basename(_f)[:-5]] = json.load(open(_f))
